@@ -587,7 +587,8 @@ func guardedNonNil(fn *ssa.Function, v ssa.Value, at *ssa.BasicBlock, cut *Cut) 
 			continue
 		}
 		found = true
-		c.AddEdge(i.Block(), Arm(i, trueIsNil))
+		// remove the arm on which v is non-nil: if `at` becomes unreachable, it is guarded
+		c.AddEdge(i.Block(), Arm(i, !trueIsNil))
 	}
 	if !found {
 		return false
@@ -605,8 +606,8 @@ func guardedBool(fn *ssa.Function, v ssa.Value, at *ssa.BasicBlock, cut *Cut, va
 			continue
 		}
 		found = true
-		// remove the arm on which v == !val
-		c.AddEdge(i.Block(), Arm(i, (!val) != neg))
+		// remove the arm on which v == val: if `at` becomes unreachable, it is guarded
+		c.AddEdge(i.Block(), Arm(i, val != neg))
 	}
 	if !found {
 		return false
